@@ -183,7 +183,7 @@ def check(tier):
     rep = vlib.Report(PROP, tier, "proof")
     rng = random.Random(rep.seed)
     import tparse
-    st = vlib.proof_stage(rep, "Properties_C02.v", ["tmpl", "tparse"], tables=(("Tables", "gentables.cpp"),) + tuple(tparse.TABLES))
+    st = vlib.proof_stage(rep, "Properties_C02.v", ["tmpl", "tparse", "tfull"], tables=(("Tables", "gentables.cpp"),) + tuple(tparse.TABLES))
     exe, msg = build("sse2")
     if exe is None:
         rep.violation({"broken": "cpp/drv_tmpl.cpp does not build against the current tree", "log": msg}, no_input=True)
@@ -207,6 +207,20 @@ def check(tier):
             nfail += f2
             nmis += m2_
             builds.append(simd)
+    # how many generated ASTs satisfy the hypothesis of the end-to-end theorem c02_full_loops
+    # (as generated, and projected onto its fragment), and whether the extracted pipeline of the
+    # theorem (parser model + renderer model on jv) equals `expand` on them -- a test of the theorem
+    wfstat = {}
+    try:
+        import tfull
+        a = tfull.count_wf(random.Random(rep.seed), 300 if tier == "quick" else 5000, projected=False)
+        b = tfull.count_wf(random.Random(rep.seed), 300 if tier == "quick" else 5000, projected=True)
+        wfstat = {"as_generated": {k: a.get(k) for k in ("n", "wf", "n_bad")}, "projected_to_fragment": {k: b.get(k) for k in ("n", "wf", "n_bad")}}
+        if a.get("n_bad") or b.get("n_bad"):
+            rep.violation({"broken": "extracted pipeline of c02_full_loops (parse_model + render_model on jv) differs from expand on a well-formed AST",
+                           "detail": json.dumps((a.get("bad") or b.get("bad"))[:1])[:1500]}, no_input=True)
+    except Exception as ex:      # the statistic is diagnostic; the theorem itself is checked by the proof stage
+        wfstat = {"error": str(ex)[:300]}
     kinds = {}
     for c in cases:
         for nd in c.ast:
@@ -228,6 +242,7 @@ def check(tier):
         "top_level_node_kinds": kinds,
         "widths": {str(w): sum(1 for c in cases if c.w == w) for w in range(4)},
         "simd_builds": builds,
+        "wf_template_statistics": wfstat,
         "traces_validated_against_impl": len(cases),
         "oracle_failures": nfail,
         "model_impl_mismatches": nmis,
